@@ -106,6 +106,18 @@ PROGRAMS = {
     "nores_open": {"msgs": [M("open_run"), M("checkpoint"), M("clear_checkpoint"), M("stage", "det"), M("null"), M("unstage", "det"), M("null")]},
     # ... and in which rewinding is switched off and on again (rewindable is not resumable)
     "nores_rew": {"msgs": [M("open_run"), M("checkpoint"), M("clear_checkpoint"), M("rewindable", a="F"), M("null"), M("rewindable", a="T"), M("null"), M("null")]},
+    # a non-resumable section that is ended by a checkpoint AFTER data has been taken: what a later rewind restores must be the
+    # numbering at that checkpoint
+    "nores_then_ckpt": {"msgs": [M("open_run"), M("checkpoint")] + _point + [M("clear_checkpoint"), M("null"), M("checkpoint"), M("null")] + _point
+                                + [M("close_run")]},
+    # an unstage of a device the plan did not stage in this call (still an implicit checkpoint)
+    "unstage_only": {"msgs": [M("open_run"), M("checkpoint"), M("null"), M("unstage", "det"), M("null"), M("null"), M("close_run")]},
+    # a device is re-configured right after a checkpoint, data is taken, then the interruption
+    "cfg_late": {"msgs": [M("open_run"), M("checkpoint")] + _point + [M("checkpoint"), M("configure", "det")] + _point + [M("null")] + _point
+                         + [M("close_run")]},
+    # the plan pauses itself in a non-resumable section after having set a device whose stop() really awaits
+    "aselfpause_nores": {"msgs": [M("open_run"), M("checkpoint"), M("set", "amotor", a="g1"), M("wait", a="g1"), M("clear_checkpoint"),
+                                  M("pause", a="F"), M("null"), M("null")]},
     "openonly": {"msgs": [M("open_run"), M("checkpoint"), M("sleep"), M("null")]},
     # pauses requested by the plan itself (Msg('pause')): resumable, deferred, and in a non-resumable section with the run left open
     "selfpause": {"msgs": [M("open_run"), M("checkpoint"), M("null"), M("pause", a="F"), M("null"), M("checkpoint"), M("pause", a="T"), M("null"),
@@ -144,7 +156,7 @@ PROGRAMS = {
                         M("null"), M("close_run")]},
     "cfginb": {"msgs": [M("open_run"), M("checkpoint"), M("create", a="primary"), M("read", "det"), M("configure", "det"), M("save"), M("close_run")]},
 }
-ASYNC_PLANS = {"amove", "aopen"}      # devices whose stop()/pause()/resume() are coroutines that really suspend
+ASYNC_PLANS = {"amove", "aopen", "aselfpause_nores"}      # devices whose stop()/pause()/resume() are coroutines that really suspend
 MULTI_RUN_PLANS = {"multi", "multimon", "dupopen", "multi_close"}
 NOT_CONFORMANCE = set()        # use commands RE.tla does not model (yet): monitored only
 
@@ -453,7 +465,7 @@ def corpus_spec(tier):
     """the list of sweeps that make up the corpus"""
     quick = tier == "quick"
     sweeps = []
-    progs = ["simple", "two", "fin", "move", "mon", "multi", "defer", "norew", "paus", "err", "openonly", "nores_open", "nores_rew", "multi_close", "amove", "aopen",
+    progs = ["simple", "two", "fin", "move", "mon", "multi", "defer", "norew", "paus", "err", "openonly", "nores_open", "nores_rew", "nores_then_ckpt", "unstage_only", "cfg_late", "multi_close", "amove", "aopen", "aselfpause_nores",
              "selfpause", "selfpause_nores", "selfpause_nores_fin", "selfdefer_nores", "norew_save"]
     kinds = REQ_KINDS
     if quick:
